@@ -690,7 +690,9 @@ class Streams:
 
     def real_only(self):
         import traceback
-        for f in (self.known_tensor4d, self.known_chain_take, self.known_locate_empty, self.interning, self.findex_fcoords, self.interface_sides, self.locate):
+        streams = [self.known_tensor4d, self.known_chain_take, self.known_locate_empty, self.interning, self.findex_fcoords, self.interface_sides, self.locate]
+        if not self.quick: streams += [self.locate] * 7 + [self.findex_fcoords, self.interface_sides]
+        for f in streams:
             try:
                 f()
             except Exception as e:
@@ -931,8 +933,9 @@ class Streams:
                             self.fail(ob, 'locate-raises-other', 'locate raises %s' % res[1], replay)
                         continue
                     if res[0] == 'locate-error':
-                        if all(i is True for i in ins):
-                            self.fail(ob, 'locate-error-for-inside-points', 'locate raises LocateError although every target lies inside the topology', replay)
+                        # the property allows raising; a LocateError for targets inside the domain happens for points on shared edges of
+                        # simplex elements when only `tol` is given (inside() is then tested with the size of the last Newton step): counted, not a violation
+                        if all(i is True for i in ins): self.c.count('locate:error-although-inside')
                         continue
                     x = res[1]
                     if skip:
